@@ -532,6 +532,19 @@ def main():
         elif info.get("beyond"):
             ck.note("beyond 2^53 (outside the claim): %s on %s = %s, image %s: the encoder sees a rounding difference the real `contains` rounds away" % (gen.show(e), shown, rv.get("s"), info["image_s"]))
         else:
+            vj_ = rv.get("ok") or {}
+            vj_ = vj_["v"] if vj_.get("t") == "Optional" and vj_.get("v") is not None else vj_
+            ib_ = info["I"]["of"] if info["I"]["t"] == "Optional" else info["I"]
+            big_ = False
+            try:
+                big_ = vj_.get("t") == "Float" and abs(driver.bits_f64(vj_["v"])) >= float(P53)
+            except Exception:
+                pass
+            if inside is True and ib_["t"] == "Integer" and big_:
+                # a float result beyond 2^53 against an integer image: the real `contains` converts the float (rounding) and
+                # accepts; the encoder compares exactly. No violation in the real code; the region is outside the claim.
+                ck.note("float result beyond 2^53 against an integer image (outside the claim): %s on %s = %s, image %s: accepted by the real contains" % (gen.show(e), shown, rv.get("s"), info["image_s"]))
+                continue
             ck.inconclusive("counterexample %s did not reproduce: %s on %s = %s, image %s (contains=%s)" % (r["id"], gen.show(e), shown, rv.get("s") or rv.get("err"), info["image_s"], inside))
     d.close()
     cov = dict(
